@@ -116,7 +116,10 @@ def run_history(calls, hashseed=0):
 def fmt_result(r, which):
     """the driver's notation; which = 'canon' | 'storage' | 'sorted'"""
     if "err" in r:
-        return r["err"]
+        # THAT the reader gave up is compared here, not the kind of exception: no property pins the kind of error for a
+        # malformed export line (benign change P01 turns its IndexError into a ValueError), and the kinds the properties
+        # do speak about are compared where they belong (C01, C03)
+        return "ERR"
     if not r["ok"]:
         return "EMPTY"
     pick = {"canon": lambda s: s[1], "storage": lambda s: s[2], "sorted": lambda s: sorted(s[1])}[which]
